@@ -7,6 +7,8 @@ mod graph;
 mod checkers;
 mod trackers;
 mod build;
+mod libs;
+mod files;
 
 fn main() {
   // Silence panic messages (expected panics are part of the observations).
@@ -26,6 +28,11 @@ fn main() {
       let res = catch_unwind(AssertUnwindSafe(|| match toks[1] {
         "graph" => graph::run_case(body),
         "build" => build::run_case(body),
+        "lib12" => libs::run_lib12(body),
+        "lib14" => libs::run_lib14(body),
+        "lib15" => libs::run_lib15(body),
+        "lib17" => libs::run_lib17(body),
+        "lib13" => files::run_lib13(body),
         _ => vec!["bad-kind".to_string()],
       }));
       match res {
